@@ -300,9 +300,18 @@ def nested_template(rng, n):
 def gen_tlvs(rng, maxlen=999):
     """complete TLVs under the module's tag rule (two-byte tags start with 9f / 5f; no 00 tag)"""
     out = b''
+    if rng.random() < 0.06 and maxlen >= 50:
+        # binary data that LOOKS like text: every byte the ASCII code of a hexadecimal digit, an even number of them (tag
+        # x'42' = 'B' / x'41' / x'46', length x'30' = 48 or x'32' = 50, the value in x'30'..x'39' / x'61'..x'66'): it is
+        # binary all the same, and comes back byte for byte
+        ln = rng.choice([0x30, 0x32, 0x34])
+        return (bytes([rng.choice([0x42, 0x41, 0x46, 0x63])]) + bytes([ln]) +
+                bytes(rng.choice(b'0123456789abcdefABCDEF') for _ in range(ln)))
     for _ in range(rng.randrange(1, 8)):
         if rng.random() < 0.5:
             tag = bytes([rng.choice([0x9f, 0x5f]), rng.randrange(256)])
+        elif rng.random() < 0.15:
+            tag = bytes([rng.choice([0xff, 0xff, 0x80, 0x1f, 0x7f, 0xbf, 0x20, 0x40])])     # one-byte tags that look like fill
         else:
             tag = bytes([rng.choice([x for x in range(1, 256) if x not in (0x9f, 0x5f)])])
         # lengths are ONE byte, 0..255 — values of 128 and more are not BER long-form markers in this format
@@ -371,7 +380,10 @@ def gen_value(rng, fc, codec, length=None):
                                                     rng.randrange(1, 30)])
     n = max(1, min(n, maxvar))
     if proc in ('PAN', 'PAN-PREFIX'):
-        n = max(10, min(n, 19)) if length is None else n
+        if length is None:
+            # a prefix of a SHORT number is the number itself (nothing is added to it)
+            n = rng.choice([1, 5, 8, 9, 10, 13, 16, 19]) if proc == 'PAN-PREFIX' else max(10, min(n, 19))
+            n = min(n, maxvar)
         t = text(rng, codec, n, 'digits')
         from_dec = (t[0:6] + '*' * (len(t) - 10) + t[-4:]) if proc == 'PAN' else t[:9]
         return t, from_dec
